@@ -60,7 +60,8 @@ class Variables:
 
     def inline_variables(self, sql: str) -> str:
         for name, value in self._variables.items():
-            sql = re.sub(rf"\${name}", value, sql, flags=re.IGNORECASE)
+            # a reference is the whole $name: not part of a longer name, and not after another $ ($$ quoting)
+            sql = re.sub(rf"(?<!\$)\${name}(?!\w)", value, sql, flags=re.IGNORECASE)
 
         if remaining_variables := re.search(r"(?<!\$)\$\w+", sql):
             raise snowflake.connector.errors.ProgrammingError(
